@@ -37,7 +37,17 @@ func genC09(r *rand.Rand, n int, emit func(string)) {
 
 		// window
 		var from, until int64
-		switch r.Intn(6) {
+		switch r.Intn(8) {
+		case 6: // negative from (legal int64), until unset or set
+			from = -int64(1 + r.Intn(3000))
+			if r.Intn(2) == 0 {
+				until = int64(r.Intn(4000)) - 2000
+			}
+		case 7: // negative until
+			until = -int64(1 + r.Intn(3000))
+			if r.Intn(2) == 0 {
+				from = int64(r.Intn(100))
+			}
 		case 0: // neither
 		case 1: // only until
 			until = int64(1 + r.Intn(100000))
